@@ -457,6 +457,124 @@ def deep_chains(ctx: Ctx, depths: List[int]) -> dict:
     return {"self_recursive_positions": [f"{a}: {' > '.join(u)}" for a, u in routes][:12], "cases": n, "depths": depths, "beyond_generator_size": too_large}
 
 
+def _json_steps(unit: List[str]) -> List[Any]:
+    """the JSON path one round of a self-recursive route walks (union alternatives and aliases take no step)."""
+    steps: List[Any] = []
+    for locus in unit:
+        last = locus.rsplit("|", 1)[-1] if "|" in locus else None
+        if last is None:
+            if locus.startswith("struct:"):
+                steps.append(locus.split(".", 1)[1])
+        elif last == "[]":
+            steps.append(0)
+        elif last == "{}":
+            steps.append("{}")
+        elif last.startswith("."):
+            steps.append(last[1:])
+    return steps
+
+
+def _walk(j: Any, steps: List[Any]) -> Tuple[Any, Any, Any]:
+    """(parent, key, node) after following the steps; raises KeyError/IndexError/TypeError when the value has no such path"""
+    parent = key = None
+    node = j
+    for st_ in steps:
+        if st_ == "{}":
+            st_ = sorted(node)[0]
+        parent, key, node = node, st_, node[st_]
+    return parent, key, node
+
+
+def very_deep(ctx: Ctx, levels: int) -> dict:
+    """values nested far deeper than the generator builds (hundreds of levels - everything the json module still carries):
+    a generated value of a self-recursive structure is grafted into its own innermost position again and again, and JSON
+    payload positions get lists / objects nested that deep. Oracle, metamorphic: the round trip of the graft is the graft
+    of the round trips (the generated value itself has passed the round-trip oracle above)."""
+    import copy
+    from .. import tvgen
+    from ..hyp import mini
+    sub = valuecheck.subject()
+    stats = {"levels": levels, "cases": 0, "skipped_routes": 0, "payload_cases": 0, "sanity_cases": 0}
+
+    def trip(name: str, j: Any, expect: Any, tag: str, case: dict) -> None:
+        T = getattr(sub.types, name)
+        try:
+            obj = sub.conv.structure(j, T)
+        except Exception as e:
+            inner = e   # detailed validation wraps what happened inside a class in a group per class: the innermost cause
+            for _ in range(10000):
+                subs = getattr(inner, "exceptions", None)
+                if not subs:
+                    break
+                inner = subs[0]
+            ctx.finding((f"raises:{type(inner).__name__}", f"root:struct:{name}", f"{tag}:structure"), f"{name} nested {tag}: {type(inner).__name__} while structuring", case)
+            return
+        try:
+            o = json.loads(json.dumps(sub.conv.unstructure(obj, T)))
+        except Exception as e:
+            ctx.finding((f"raises:{type(e).__name__}", f"root:struct:{name}", f"{tag}:unstructure"),
+                        f"{name} nested {tag}: parsed, but {type(e).__name__} while writing it back", case)
+            return
+        if o != expect:
+            ctx.finding(("very-deep-differs", f"root:struct:{name}", tag), f"{name} nested {tag}: the round trip of the graft is not the graft of the round trips", case)
+
+    def graft(base: Any, steps: List[Any], times: int) -> Any:
+        cur = copy.deepcopy(base)
+        for _ in range(times - 1):
+            outer = copy.deepcopy(base)
+            parent, key, _ = _walk(outer, steps)
+            parent[key] = cur
+            cur = outer
+        return cur
+
+    d0 = 5
+    for name, unit in self_recursive_routes(sub.model):
+        if not hasattr(sub.types, name):
+            continue
+        got: List[Any] = []
+        try:
+            mini(tvgen.value_strategy(sub.objects, ("struct", name), tvgen.GenCfg(route=unit * d0, max_depth=3, max_nodes=60)), 2, (ctx.seed, "C01verydeep", name, unit[0]),
+                 lambda x: got.append(x[0]))
+        except Exception:
+            got = []
+        if not got:
+            stats["skipped_routes"] += 1
+            continue
+        tv = got[-1]
+        j = erase(tv)
+        steps = _json_steps(unit) * d0
+        try:
+            _walk(j, steps)
+            T = getattr(sub.types, name)
+            out1 = json.loads(json.dumps(sub.conv.unstructure(sub.conv.structure(j, T), T)))
+            _walk(out1, steps)
+        except Exception:
+            stats["skipped_routes"] += 1   # the generated value does not follow the route literally (or is C01's matter itself)
+            continue
+        per_round = max(1, len(steps))
+        for lv, tag in ((60, "sanity-60-levels"), (levels, f"very-deep-{levels}-levels")):
+            times = max(2, lv // per_round)
+            trip(name, graft(j, steps, times), graft(out1, steps, times), tag, {"root": ["struct", name], "route": unit, "grafts": times, "base_json": j})
+            stats["cases" if lv == levels else "sanity_cases"] += 1
+    # JSON payload positions (LSPAny / LSPArray / LSPObject): the payload is the deep part
+    def nest(kind: str, n: int) -> Any:
+        cur: Any = 1
+        for _ in range(n):
+            cur = [cur] if kind == "list" else {"k": cur}
+        return cur
+    payload_sites = [("ProgressParams", lambda v: {"token": 1, "value": v}), ("DidChangeConfigurationParams", lambda v: {"settings": v}),
+                     ("Command", lambda v: {"title": "t", "command": "c", "arguments": [v]})]
+    for name, make in payload_sites:
+        if not hasattr(sub.types, name):
+            continue
+        for kind in ("list", "dict"):
+            for lv, tag in ((60, "sanity-60-levels"), (levels, f"very-deep-{levels}-levels")):
+                j = make(nest(kind, lv))
+                trip(name, j, j, tag + ":" + kind, {"root": ["struct", name], "payload": kind, "levels": lv})
+                stats["payload_cases"] += 1
+    return stats
+
+
 def run(ctx: Ctx) -> None:
     ctx.assumptions = [
         "the reference interpreter of the metamodel (lspverif/refmodel.py) reads lsp.json as the LSP specification intends",
@@ -471,6 +589,7 @@ def run(ctx: Ctx) -> None:
     ctx.coverage["evaluations"] += mx.get("comparisons", 0)
     deep = deep_chains(ctx, [25, 100] if ctx.quick else [25, 100, 180])
     ctx.coverage["deep_chains"] = deep
+    ctx.coverage["very_deep"] = very_deep(ctx, 600)
     ctx.coverage["evaluations"] += deep["cases"]
     if not ctx.quick:
         cg = coverage_guided(ctx, procs=16, runs=30000)
